@@ -87,6 +87,10 @@ def track_cases(rng, count):
         ystart = f32(yc + rng.choice([0.0, 0.0, 3.0, -4.0]))
         if rng.random() < 0.15:
             ystart = rng.choice([0.0, float(n - 1)])      # particles on the grid edge
+        if k < 8:
+            # every tracking model once from each edge row (all stencil weights are zero there: 0/0 in the
+            # charge-weighted model, which the clamp must absorb)
+            ystart = 0.0 if k < 4 else float(n - 1)
         data = [f32(math.exp(-0.5 * ((pmin + y * delta)) ** 2)) for x in range(n) for y in range(n)]
         cid = "t%d" % k
         recs.append(dict(id=cid, n=n, fptrack=fptrack, e1=e1, delta=delta, yc=yc, ystart=ystart, steps=steps,
@@ -150,7 +154,7 @@ def run(chk):
     ok, det = lib.prove(chk, MODULES, min_examples=0)
     harness = lib.build_harness()
     quick = chk.tier == "quick"
-    nblob, ntrack = (120, 8) if quick else (4000, 80)
+    nblob, ntrack = (120, 12) if quick else (4000, 80)
     sizes = [16, 17, 24, 32] if quick else [16, 17, 24, 32, 48, 64]
     brecs, trecs, optexts, mism, drift, san, fails = explore(chk, harness, nblob, ntrack, sizes, "main")
     chk.cov["evaluations"] = len(brecs) + len(trecs)
